@@ -575,4 +575,235 @@ theorem run_acct (ops : List Op) {s : St} (hA : Acct s) : Acct (run s ops) := by
     | none => exact ih hA
     | some r => exact ih (step_acct hA (show step s op = some (r.1, r.2) from hs))
 
+theorem enterCore_kind {s s' : St} {caller orig tokenTo amt : Nat} {extra : List (Nat × Nat)} {o : Out}
+    (h : enterCore s caller orig tokenTo amt extra = some (s', o)) : s'.kind = s.kind := by
+  simp only [enterCore, Option.bind_eq_bind, Option.bind_eq_some_iff, req_eq_some, Option.pure_def,
+    Option.some.injEq, Prod.mk.injEq] at h
+  obtain ⟨_, _, s0, h0, ⟨s1, boosted⟩, h1, s1', h1', _, hact, s2, h2, ⟨s4, c1⟩, h4, merged, hm,
+    ⟨s5, n⟩, h5, s6, h6, s8, h8, s9, h9, rfl, rfl⟩ := h
+  have k0 : s0.kind = s.kind := takePayments_kind h0
+  have k1 : s1.kind = s.kind := (claimOnlyBoostedPayment_kind h1).trans k0
+  have k1' : s1'.kind = s.kind := (payRewardIf_kind h1').trans k1
+  have k2 : s2.kind = s.kind := (checkAndUpdate_kind h2).trans k1'
+  have k4 : s4.kind = s.kind := (generate_kind h4).trans k2
+  have k5 : s5.kind = s.kind := (createToken_kind h5).trans k4
+  have k6 : s6.kind = s.kind := (setFarmSupplyWeek_kind h6).trans k5
+  have k8 : s8.kind = s.kind := (payRewardIf_kind h8).trans k6
+  exact (updateEnergyAndProgress_kind h9).trans k8
+
+theorem claimCore_kind {s s' : St} {caller orig : Nat} {pays : List (Nat × Nat)} {cmp : Bool} {o : Out}
+    (h : claimCore s caller orig pays cmp = some (s', o)) : s'.kind = s.kind := by
+  simp only [claimCore, Option.bind_eq_bind, Option.bind_eq_some_iff, req_eq_some, Option.pure_def,
+    Option.some.injEq, Prod.mk.injEq, sub?_eq_some] at h
+  obtain ⟨⟨n1, a1⟩, _, s0, h0, _, hact, _, hsame, at1, hat, ⟨s1, c1⟩, h1, part, hpart, ⟨s2, boosted⟩, h2,
+    res, ⟨hle, rfl⟩, s3, h3, merged, hm, ⟨s5, n⟩, h5, s6, h6, s8, h8, rfl, rfl⟩ := h
+  have k0 : s0.kind = s.kind := takePayments_kind h0
+  have k1 : s1.kind = s.kind := (generate_kind h1).trans k0
+  have k2 : s2.kind = s.kind := (claimBoostedYields_kind h2).trans k1
+  have k3 : s3.kind = s.kind := (checkAndUpdate_kind h3).trans k2
+  have k5 : s5.kind = s.kind := (createToken_kind h5).trans (by cases cmp <;> exact k3)
+  have k6 : s6.kind = s.kind := (setFarmSupplyWeek_kind h6).trans k5
+  exact (claimTail_kind h8).trans k6
+
+set_option maxHeartbeats 1000000 in
+theorem exitFarm_kind {s s' : St} {caller : Nat} {opt : Option Nat} {n a : Nat} {o : Out}
+    (h : exitFarm s caller opt n a = some (s', o)) : s'.kind = s.kind := by
+  simp (config := { maxSteps := 1000000 }) only [exitFarm, Option.bind_eq_bind, Option.bind_eq_some_iff,
+    req_eq_some, Option.pure_def, Option.some.injEq, Prod.mk.injEq, sub?_eq_some] at h
+  obtain ⟨orig, _, s0, h0, _, hact, att, hat, ⟨s1, c1⟩, h1, part, hpart, ⟨s2, boosted⟩, h2,
+    res, ⟨hle, rfl⟩, sup, ⟨hsup, rfl⟩, s4, h4, pen, hpen, out, _, s6, h6, s7, h7, s8, h8, rfl, rfl⟩ := h
+  have k0 : s0.kind = s.kind := takePayments_kind h0
+  have k1 : s1.kind = s.kind := (generate_kind h1).trans k0
+  have k2 : s2.kind = s.kind := (claimBoostedYields_kind h2).trans k1
+  have k4 : s4.kind = s.kind := (setFarmSupplyWeek_kind h4).trans k2
+  have k6 : s6.kind = s.kind := (removeFarming_kind h6).trans k4
+  have k7 : s7.kind = s.kind := (payReward_kind h7).trans k6
+  exact (clearUserEnergyIfNeeded_kind h8).trans k7
+
+theorem mergeFarmTokens_kind {s s' : St} {caller : Nat} {opt : Option Nat} {pays : List (Nat × Nat)} {o : Out}
+    (h : mergeFarmTokens s caller opt pays = some (s', o)) : s'.kind = s.kind := by
+  simp only [mergeFarmTokens, Option.bind_eq_bind, Option.bind_eq_some_iff, req_eq_some, Option.pure_def,
+    Option.some.injEq, Prod.mk.injEq] at h
+  obtain ⟨_, hact, orig, _, _, _, s0, h0, ⟨s1, boosted⟩, h1, s2, h2, merged, hm, ⟨s3, n⟩, h3, s4, h4, rfl, rfl⟩ := h
+  exact (payReward_kind h4).trans ((createToken_kind h3).trans ((checkAndUpdate_kind h2).trans
+    ((claimOnlyBoostedPayment_kind h1).trans (takePayments_kind h0))))
+
+theorem claimBoostedRewards_kind {s s' : St} {caller : Nat} {optUser : Option Nat} {o : Out}
+    (h : claimBoostedRewards s caller optUser = some (s', o)) : s'.kind = s.kind := by
+  simp only [claimBoostedRewards, Option.bind_eq_bind, Option.bind_eq_some_iff, req_eq_some, Option.pure_def,
+    Option.some.injEq, Prod.mk.injEq, sub?_eq_some] at h
+  obtain ⟨_, _, _, _, _, hact, ⟨s1, c1⟩, h1, ⟨s2, boosted⟩, h2, res, ⟨hle, rfl⟩, s3, h3, s4, h4, rfl, rfl⟩ := h
+  exact (payReward_kind h4).trans ((setFarmSupplyWeek_kind h3).trans ((claimBoostedYields_kind h2).trans
+    (generate_kind h1)))
+
+theorem settle_kind {s s' : St} (h : settle s = some s') : s'.kind = s.kind := by
+  simp only [settle, Option.bind_eq_bind, Option.bind_eq_some_iff, Option.pure_def, Option.some.injEq] at h
+  obtain ⟨⟨s1, c1⟩, h1, rfl⟩ := h
+  exact generate_kind h1
+
+/-- the kind of a farm is fixed at deployment -/
+theorem step_kind {s s' : St} {op : Op} {o : Out} (h : step s op = some (s', o)) : s'.kind = s.kind := by
+  cases op <;> simp only [step, known] at h
+  case enter c oo a e =>
+    split at h <;> [skip; exact absurd h (by simp)]
+    simp only [enterFarm, Option.bind_eq_bind, Option.bind_eq_some_iff] at h
+    obtain ⟨_, _, h⟩ := h
+    exact enterCore_kind h
+  case enterOB c u a e =>
+    split at h <;> [skip; exact absurd h (by simp)]
+    simp only [enterFarmOnBehalf, Option.bind_eq_bind, Option.bind_eq_some_iff] at h
+    obtain ⟨_, _, _, _, h⟩ := h
+    exact enterCore_kind h
+  case claim c oo p =>
+    split at h <;> [skip; exact absurd h (by simp)]
+    simp only [claimRewards, Option.bind_eq_bind, Option.bind_eq_some_iff] at h
+    obtain ⟨_, _, h⟩ := h
+    exact claimCore_kind h
+  case claimOB c p =>
+    split at h <;> [skip; exact absurd h (by simp)]
+    simp only [claimRewardsOnBehalf, Option.bind_eq_bind, Option.bind_eq_some_iff] at h
+    obtain ⟨_, _, _, _, _, _, h⟩ := h
+    exact claimCore_kind h
+  case compound c oo p =>
+    split at h <;> [skip; exact absurd h (by simp)]
+    simp only [compoundRewards, Option.bind_eq_bind, Option.bind_eq_some_iff, req_eq_some] at h
+    obtain ⟨_, hk, _, _, h⟩ := h
+    exact claimCore_kind h
+  case exit c oo n a =>
+    split at h <;> [skip; exact absurd h (by simp)]
+    exact exitFarm_kind h
+  case merge c oo p =>
+    split at h <;> [skip; exact absurd h (by simp)]
+    exact mergeFarmTokens_kind h
+  case claimBoosted c u =>
+    split at h <;> [skip; exact absurd h (by simp)]
+    exact claimBoostedRewards_kind h
+  case transfer a b n x =>
+    split at h <;> [skip; exact absurd h (by simp)]
+    split at h <;> [skip; exact absurd h (by simp)]
+    simp only [noOut, Option.map_eq_some_iff, Prod.mk.injEq] at h
+    obtain ⟨s1, h1, rfl, _⟩ := h
+    simp only [transfer, Option.bind_eq_bind, Option.bind_eq_some_iff, req_eq_some, sub?_eq_some,
+      Option.pure_def, Option.some.injEq] at h1
+    obtain ⟨_, _, _, _, _, _, _, _, rfl⟩ := h1
+    rfl
+  case setEnergy u a l t =>
+    simp only [Option.some.injEq, Prod.mk.injEq] at h
+    obtain ⟨rfl, _⟩ := h
+    rfl
+  case updateEnergy u =>
+    simp only [noOut, Option.map_eq_some_iff, Prod.mk.injEq] at h
+    obtain ⟨s1, h1, rfl, _⟩ := h
+    simp only [updateEnergyForUser, Option.bind_eq_bind, Option.bind_eq_some_iff, Option.pure_def,
+      Option.some.injEq] at h1
+    obtain ⟨_, _, _, _, rfl⟩ := h1
+    rfl
+  case setPerBlock c x =>
+    simp only [noOut, Option.map_eq_some_iff, Prod.mk.injEq] at h
+    obtain ⟨s1, h1, rfl, _⟩ := h
+    simp only [setPerBlock, Option.bind_eq_bind, Option.bind_eq_some_iff, Option.pure_def,
+      Option.some.injEq] at h1
+    obtain ⟨_, _, _, _, s2, h2, rfl⟩ := h1
+    exact settle_kind h2
+  case startProduce c =>
+    simp only [noOut, Option.map_eq_some_iff, Prod.mk.injEq] at h
+    obtain ⟨s1, h1, rfl, _⟩ := h
+    simp only [startProduce, Option.bind_eq_bind, Option.bind_eq_some_iff, Option.pure_def,
+      Option.some.injEq] at h1
+    obtain ⟨_, _, _, _, _, _, rfl⟩ := h1
+    rfl
+  case endProduce c =>
+    simp only [noOut, Option.map_eq_some_iff, Prod.mk.injEq] at h
+    obtain ⟨s1, h1, rfl, _⟩ := h
+    simp only [endProduce, Option.bind_eq_bind, Option.bind_eq_some_iff, Option.pure_def,
+      Option.some.injEq] at h1
+    obtain ⟨_, _, s2, h2, rfl⟩ := h1
+    exact settle_kind h2
+  case setPct c p =>
+    simp only [noOut, Option.map_eq_some_iff, Prod.mk.injEq] at h
+    obtain ⟨s1, h1, rfl, _⟩ := h
+    simp only [setPct, Option.bind_eq_bind, Option.bind_eq_some_iff, Option.pure_def,
+      Option.some.injEq] at h1
+    obtain ⟨_, _, _, _, s2, h2, rfl⟩ := h1
+    exact settle_kind h2
+  case setFactors c f =>
+    simp only [noOut, Option.map_eq_some_iff, Prod.mk.injEq] at h
+    obtain ⟨s1, h1, rfl, _⟩ := h
+    simp only [setFactors, Option.bind_eq_bind, Option.bind_eq_some_iff, Option.pure_def] at h1
+    obtain ⟨_, _, _, _, W, _, h1⟩ := h1
+    split at h1
+    · simp only [Option.bind_eq_some_iff, Option.some.injEq] at h1
+      obtain ⟨_, _, rfl⟩ := h1
+      rfl
+    · simp only [Option.some.injEq] at h1
+      subst h1
+      rfl
+  case collect c =>
+    simp only [noOut, Option.map_eq_some_iff, Prod.mk.injEq] at h
+    obtain ⟨s1, h1, rfl, _⟩ := h
+    simp only [collectUndistributed, Option.bind_eq_bind, Option.bind_eq_some_iff, Option.pure_def,
+      req_eq_some] at h1
+    obtain ⟨_, _, W, _, _, _, h1⟩ := h1
+    split at h1 <;> simp only [Option.some.injEq] at h1 <;> subst h1 <;> rfl
+  case pause c =>
+    simp only [noOut, Option.map_eq_some_iff, Prod.mk.injEq] at h
+    obtain ⟨s1, h1, rfl, _⟩ := h
+    simp only [setActive, Option.bind_eq_bind, Option.bind_eq_some_iff, Option.pure_def,
+      Option.some.injEq] at h1
+    obtain ⟨_, _, rfl⟩ := h1
+    rfl
+  case resume c =>
+    simp only [noOut, Option.map_eq_some_iff, Prod.mk.injEq] at h
+    obtain ⟨s1, h1, rfl, _⟩ := h
+    simp only [setActive, Option.bind_eq_bind, Option.bind_eq_some_iff, Option.pure_def,
+      Option.some.injEq] at h1
+    obtain ⟨_, _, rfl⟩ := h1
+    rfl
+  case setPenalty c p =>
+    simp only [noOut, Option.map_eq_some_iff, Prod.mk.injEq] at h
+    obtain ⟨s1, h1, rfl, _⟩ := h
+    simp only [setPenalty, Option.bind_eq_bind, Option.bind_eq_some_iff, Option.pure_def,
+      Option.some.injEq] at h1
+    obtain ⟨_, _, _, _, rfl⟩ := h1
+    rfl
+  case setMinEpochs c n =>
+    simp only [noOut, Option.map_eq_some_iff, Prod.mk.injEq] at h
+    obtain ⟨s1, h1, rfl, _⟩ := h
+    simp only [setMinEpochs, Option.bind_eq_bind, Option.bind_eq_some_iff, Option.pure_def,
+      Option.some.injEq] at h1
+    obtain ⟨_, _, _, _, rfl⟩ := h1
+    rfl
+  case hubWhitelist u a =>
+    split at h
+    · cases h
+    · simp only [Option.some.injEq, Prod.mk.injEq] at h; obtain ⟨rfl, _⟩ := h; rfl
+  case hubRemove u a =>
+    split at h
+    · simp only [Option.some.injEq, Prod.mk.injEq] at h; obtain ⟨rfl, _⟩ := h; rfl
+    · cases h
+  case hubBlacklist a =>
+    simp only [Option.some.injEq, Prod.mk.injEq] at h; obtain ⟨rfl, _⟩ := h; rfl
+  case scWhitelist a =>
+    split at h
+    · cases h
+    · simp only [Option.some.injEq, Prod.mk.injEq] at h; obtain ⟨rfl, _⟩ := h; rfl
+  case scUnwhitelist a =>
+    split at h
+    · simp only [Option.some.injEq, Prod.mk.injEq] at h; obtain ⟨rfl, _⟩ := h; rfl
+    · cases h
+  case advance b e =>
+    split at h
+    · simp only [Option.some.injEq, Prod.mk.injEq] at h; obtain ⟨rfl, _⟩ := h; rfl
+    · cases h
+  case bad => cases h
+
+theorem run_kind (ops : List Op) (s : St) : (run s ops).kind = s.kind := by
+  induction ops generalizing s with
+  | nil => rfl
+  | cons op rest ih =>
+    simp only [run, List.foldl_cons]
+    cases hs : step s op with
+    | none => exact ih s
+    | some r => exact (ih r.1).trans (step_kind (show step s op = some (r.1, r.2) from hs))
+
 end Mx.Farm
